@@ -41,3 +41,104 @@ def build():
         cmd.append('./cmd/srvh')
         rc, o = common.sh(cmd, cwd=common.GO, env=common.go_env(), timeout=600)
         return (out if rc == 0 else None), o
+
+# ---------------------------------------------------------------- plans and runs
+
+def steps():
+    return common.facts().get('server_steps', {})
+
+def detect_cfg(st):
+    oa, cl = st.get('server.onAccept', []), st.get('server.Close', [])
+    return ''.join('1' if b else '0' for b in (
+        '0 expr:mu.Lock' in oa,
+        any('atomic.LoadInt32(s.accepting)' in l for l in cl),
+        '3 if:s.connections.Load' in cl))
+
+def closure_range(oa):
+    lo = hi = -1
+    for i, l in enumerate(oa):
+        if l == '0 expr:AddCloseCallback':
+            lo, hi = i, len(oa)
+            for j in range(i + 1, len(oa)):
+                if oa[j].startswith('0 '):
+                    hi = j; break
+    return lo, hi
+
+def sweep_plan(st, tier):
+    """every window of the real onAccept / Close: (kind, fn, k) lines"""
+    oa, cl = st.get('server.onAccept', []), st.get('server.Close', [])
+    lo, hi = closure_range(oa)
+    thread = [k for k in range(len(oa)) if not (lo < k < hi)]
+    locked, held = set(), False
+    for k in thread:
+        if held: locked.add(k)
+        if oa[k] == '0 expr:mu.Lock': held = True
+        if oa[k] == '0 expr:mu.Unlock': held = False
+    plan = [('plain', 'server.onAccept', -1)]
+    plan += [('acc-close', 'server.onAccept', k) for k in thread]
+    plan += [('acc-busy', 'server.onAccept', k) for k in thread]
+    plan += [('acc-shutdown', 'server.onAccept', k) for k in thread if k not in locked]
+    plan += [('cb-accept', 'server.onAccept', k) for k in range(lo + 1, hi)]
+    plan += [('sh-close', 'server.Close', k) for k in range(len(cl))]
+    plan += [('sh-busy', 'server.Close', k) for k in range(len(cl))]
+    return plan
+
+def finding_probes(st):
+    """known finding R7: data + FIN inside the accept window with a slow handler (never tracked)"""
+    oa = st.get('server.onAccept', [])
+    return [('acc-datafin', 'server.onAccept', k) for k, l in enumerate(oa) if l == '0 if:IsActive']
+
+def run_sweep(binary, wd, plan, cfg):
+    os.makedirs(wd, exist_ok=True)
+    pf, ops, impl, model, spec = (os.path.join(wd, n) for n in ('plan', 'ops', 'impl', 'model', 'spec'))
+    open(pf, 'w').write(''.join('%s %s %d\n' % p for p in plan))
+    p = subprocess.run([binary, '-mode', 'sweep', '-facts', os.path.join(common.WORK, 'facts.json'), '-plan', pf,
+                        '-ops-out', ops, '-impl-out', impl, '-cfg', cfg], stdout=subprocess.PIPE, stderr=subprocess.STDOUT, text=True, timeout=900)
+    if p.returncode != 0:
+        raise RuntimeError('srvh sweep failed: ' + p.stdout[-2000:])
+    with open(ops) as i, open(model, 'w') as o:
+        subprocess.run([common.DRIVER, 'srv'], stdin=i, stdout=o, check=True, timeout=600)
+    with open(spec, 'w') as o:
+        subprocess.run([common.DRIVER, 'srvspec', ops, impl], stdout=o, check=True, timeout=600)
+    return analyse_sweep(wd, plan, p.stdout)
+
+def read(p):
+    return open(p).read().split('\n')[:-1]
+
+def analyse_sweep(wd, plan, harness_out):
+    ops, impl, model, spec = (read(os.path.join(wd, n)) for n in ('ops', 'impl', 'model', 'spec'))
+    res = {'scenarios': 0, 'lines': len(ops), 'problems': [], 'finals': set(), 'hist': {}, 'injected': 0, 'samples': [],
+           'harness_problems': [l for l in harness_out.split('\n') if l.startswith('PROBLEM')]}
+    if not (len(ops) == len(impl) == len(model) == len(spec)):
+        res['problems'].append((None, 'stream-length', 'ops=%d impl=%d model=%d spec=%d' % (len(ops), len(impl), len(model), len(spec)), []))
+    cur = None; trace = []; bad = False; fired = False
+    def close():
+        nonlocal cur, trace, fired
+        if cur is not None:
+            res['finals'].add((cur[0], fired, tuple(l for l in trace if l.startswith(('settle', 'shret', 'final')))))
+            if fired: res['injected'] += 1
+            if len(res['samples']) < 3 and fired:
+                res['samples'].append(' ; '.join(trace)[:600])
+    for i in range(min(len(ops), len(impl), len(model), len(spec))):
+        o = ops[i]
+        if o.startswith('scn '):
+            close()
+            f = o.split()
+            cur = (f[2], f[3], int(f[4])); trace = []; bad = False; fired = False
+            res['scenarios'] += 1
+            res['hist'][f[2]] = res['hist'].get(f[2], 0) + 1
+            continue
+        trace.append(o + ' => ' + impl[i])
+        if o.split()[0] in ('inject', 'busy', 'injectbusy', 'injectcb', 'shret') or (o.startswith('accept 1')):
+            fired = True
+        if bad: continue
+        kind = None
+        if spec[i].startswith('IMPL-SPEC-FAIL'):
+            kind = 'impl-violates-spec'
+        elif impl[i] != model[i]:
+            kind = 'impl-model-differ'
+        if kind:
+            bad = True
+            res['problems'].append((cur, kind, 'op=%s | impl=%s | model=%s | spec=%s' % (o, impl[i], model[i], spec[i]), list(trace)))
+    close()
+    return res
